@@ -152,3 +152,11 @@ def run(ctx):
             ctx.check("C10-c", "%s#%s-answers-only-errors" % (fkey(root), k), not oks, "every reply on this path is an error",
                       "senders waiting for their apply result are taken out of pending_write_apply by %s, which can answer Ok: acknowledged without the apply result"
                       % fkey(root), loc(b, bi))
+
+
+_run_before_io_window = run
+
+
+def run(ctx):
+    _run_before_io_window(ctx)
+    io_window_rule(ctx, "C10-d")
